@@ -90,7 +90,16 @@ pub fn run(args: &[String]) {
     out.flush().unwrap();
     let pid = unsafe { libc::fork() };
     if pid == 0 {
-      unsafe { libc::alarm(alarm_s) };
+      // a probe that does not terminate spins: it is stopped after `alarm_s` seconds of its own CPU time (robust against a
+      // loaded machine, where a wall-clock alarm could hit a child that merely was not scheduled); wall-clock backstop 30x
+      unsafe {
+        let it = libc::itimerval {
+          it_interval: libc::timeval { tv_sec: 0, tv_usec: 0 },
+          it_value: libc::timeval { tv_sec: alarm_s as libc::time_t, tv_usec: 0 },
+        };
+        libc::setitimer(libc::ITIMER_PROF, &it, std::ptr::null_mut());
+        libc::alarm(alarm_s * 30);
+      }
       let mut w = std::fs::File::create(&tmp).expect("tmp");
       let r = std::panic::catch_unwind(std::panic::AssertUnwindSafe(|| {
         if flavor == "sync" {
@@ -115,7 +124,7 @@ pub fn run(args: &[String]) {
       }
     }
     let sig = if libc::WIFSIGNALED(status) { libc::WTERMSIG(status) } else { 0 };
-    writeln!(out, "{}", json!({"ev": "p_exit", "signal": sig, "timeout": sig == libc::SIGALRM})).unwrap();
+    writeln!(out, "{}", json!({"ev": "p_exit", "signal": sig, "timeout": sig == libc::SIGALRM || sig == libc::SIGPROF})).unwrap();
     let _ = std::fs::remove_file(&tmp);
     let _ = std::fs::remove_file(&img);
   }
